@@ -610,14 +610,12 @@ func (p *Parser) parseSlots() []*ast.SlotStmt {
 			if !p.expectPeek(token.RPAREN) { // move to ")"
 				return nil
 			}
-
-			p.nextToken() // skip ")"
 		}
 
 		slots = append(slots, &ast.SlotStmt{
 			Token: tok, // "@slot"
 			Name:  slotName,
-			Body:  p.parseBlockStmt(),
+			Body:  p.parseBody(),
 		})
 
 		if !p.expectPeek(token.END) { // move to "@end"
@@ -702,8 +700,7 @@ func (p *Parser) parseInsertStmt() ast.Statement {
 	}
 
 	if hasBody {
-		p.nextToken() // skip ")"
-		stmt.Block = p.parseBlockStmt()
+		stmt.Block = p.parseBody()
 
 		if !p.expectPeek(token.END) { // move to "@end"
 			return nil
